@@ -47,7 +47,7 @@ type blob struct {
 
 func TestPropVolumeReloadCounters(t *testing.T) {
 	const vid = needle.VolumeId(7)
-	vlib.Check(t, 80, 1500, func(t *rapid.T) {
+	vlib.Check(t, 80, 800, func(t *rapid.T) {
 		dir := vlib.TempDir()
 		defer os.RemoveAll(dir)
 		kind := rapid.SampledFrom([]string{"memory", "memory", "leveldb", "leveldbMedium"}).Draw(t, "kind")
@@ -64,7 +64,7 @@ func TestPropVolumeReloadCounters(t *testing.T) {
 		var ops []string
 		var idx []idxRec
 		serial := 0
-		outOrd, delThenReload, dirty, fpSeen := false, false, false, false
+		outOrd, delThenReload, dirty, fpSeen, tainted := false, false, false, false, false
 		var maxKey uint64
 		trace := func() string { return strings.Join(ops, " ") }
 		read := func(when string) {
@@ -94,7 +94,7 @@ func TestPropVolumeReloadCounters(t *testing.T) {
 			if c.maxKey != maxKey {
 				t.Fatalf("%s: MaxFileKey %x, want %x\nops: %s", when, c.maxKey, maxKey, trace())
 			}
-			if !fpSeen && c.files-c.deleted != live {
+			if !tainted && c.files-c.deleted != live {
 				t.Fatalf("%s: FileCount %d - DeletedCount %d != %d live needles\nops: %s", when, c.files, c.deleted, live, trace())
 			}
 		}
@@ -190,10 +190,16 @@ func TestPropVolumeReloadCounters(t *testing.T) {
 					t.Fatalf("volume not loaded after reload\nops: %s", trace())
 				}
 				after := volumeCounters(v)
-				if kind != "memory" && bloomFalsePositive(idx) {
+				// see mapperHarness.reload: counters recomputed with a Bloom false positive stay approximate
+				// until a later reload recomputes them exactly
+				fp := kind != "memory" && bloomFalsePositive(idx)
+				if fp {
 					fpSeen = true
+				}
+				if fp || tainted {
 					before.files, before.deleted, before.deletedSz = after.files, after.deleted, after.deletedSz
 				}
+				tainted = fp
 				if before != after {
 					t.Fatalf("volume counters before close %v, after reload as %s %v\nops: %s", before, kind, after, trace())
 				}
